@@ -91,7 +91,7 @@ Lemma only_clear : only reading clear_pending.
 Proof.
   apply only_guard. intros w. destruct (pending w); [|reflexivity].
   apply (only_seq reading); [apply only_set_pending|].
-  apply only_seq; [apply only_pop_level | apply only_emit; reflexivity].
+  apply only_seq; [apply only_emit; reflexivity | apply only_pop_level].
 Qed.
 Lemma only_declare_missing : forall fv, only reading (declare_missing fv).
 Proof.
@@ -120,7 +120,7 @@ Qed.
 Lemma only_pop n : only reading (pop n).
 Proof.
   apply only_seq; [apply only_clear|].
-  apply only_seq; [apply only_repeat_m, only_pop_level | apply only_emit; reflexivity].
+  apply only_seq; [apply only_emit; reflexivity | apply only_repeat_m, only_pop_level].
 Qed.
 Lemma only_solve : only reading solve.
 Proof. apply only_seq; [apply only_clear | apply only_emit; reflexivity]. Qed.
@@ -570,13 +570,13 @@ Section Legal.
     assert (Hlen : length s1 = S d) by (rewrite <- Hl, <- Ha, map_length; reflexivity).
     assert (Hn : n <= length (decl w1)) by (rewrite <- Hd, map_length; lia).
     assert (Hm : n <= length (sdecl w1)) by (rewrite <- Hs, map_length; lia).
-    pose proof (pop_levels_runs n w1 s1 He Hn Hm) as R2.
+    pose proof (pop_levels_runs n w1 (skipn n s1) He Hn Hm) as R2.
     set (w2 := mkW (skipn n (decl w1)) (skipn n (sdecl w1)) (pending w1) false) in *.
-    pose proof (emit_runs (CPop n) w2 s1 eq_refl) as R3. cbn [spec_step] in R3.
+    pose proof (emit_runs (CPop n) w1 s1 He) as R3. cbn [spec_step] in R3.
     assert (Hlt : (n <? length s1) = true) by (apply Nat.ltb_lt; lia).
     rewrite Hlt in R3. cbn [fst snd] in R3.
-    exists w2, (skipn n s1), (c1 ++ [] ++ [CPop n]), (r1 ++ [] ++ [RSuccess]).
-    split; [eapply runs_seq; [exact R1|]; eapply runs_seq; [exact R2 | exact R3]|].
+    exists w2, (skipn n s1), (c1 ++ [CPop n] ++ []), (r1 ++ [RSuccess] ++ []).
+    split; [eapply runs_seq; [exact R1|]; eapply runs_seq; [exact R3 | exact R2]|].
     split; [rewrite !no_error_app, N1; reflexivity|].
     split; [|exact P1].
     unfold Inv, w2. cbn [werr decl sdecl pending]. rewrite P1.
